@@ -587,6 +587,10 @@ package evaluator
 // call ends the chain with that error; nil results are dropped, the others collected in order
 //@ func evaluator.squashNilPropCallListChainMiddleware$1(env, recv, propName, _, chainArg, args, kwargs) res
 //@   requires isVal(recv) && isVal(chainArg) && next != nil && env != nil && kwargs != nil
+// a list-chain argument digests the collected results: `digest` of the argument is looked up and called with
+// (digest, argument, the new array of results); without an argument the new array itself is the result
+//@   ensures  chainArg != object.BuiltInNil && !isErrT(res) ==> ncalls >= 2 && called(ncalls - 2, evaluator.evalProp) && arg1(ncalls - 2) == chainArg && called(ncalls - 1, evaluator.evalFuncCall) && arg1(ncalls - 1) == env && arg2(ncalls - 1) == kwargs && nvarargs(ncalls - 1) == 3 && arg3(ncalls - 1) == result(ncalls - 2) && arg4(ncalls - 1) == chainArg && isT(arg5(ncalls - 1), *object.PanArr) && fresh(arg5(ncalls - 1)) && res == result(ncalls - 1)
+//@   ensures  chainArg == object.BuiltInNil && !isErrT(res) ==> isT(res, *object.PanArr) && fresh(res)
 //@   assigns  EC
 //@   loop 1 invariant fresh(elems) && iter != nil
 //@   loop 1 step ncalls == prev(ncalls) + 2 && called(prev(ncalls), "evaluator.(*iterHandler).Next") && arg1(prev(ncalls)) == iter
@@ -599,6 +603,10 @@ package evaluator
 // strict list chain (=@): nil results are kept; a failed call still ends the chain with its error (C07)
 //@ func evaluator.keepNilPropCallListChainMiddleware$1(env, recv, propName, _, chainArg, args, kwargs) res
 //@   requires isVal(recv) && isVal(chainArg) && next != nil && env != nil && kwargs != nil
+// a list-chain argument digests the collected results: `digest` of the argument is looked up and called with
+// (digest, argument, the new array of results); without an argument the new array itself is the result
+//@   ensures  chainArg != object.BuiltInNil && !isErrT(res) ==> ncalls >= 2 && called(ncalls - 2, evaluator.evalProp) && arg1(ncalls - 2) == chainArg && called(ncalls - 1, evaluator.evalFuncCall) && arg1(ncalls - 1) == env && arg2(ncalls - 1) == kwargs && nvarargs(ncalls - 1) == 3 && arg3(ncalls - 1) == result(ncalls - 2) && arg4(ncalls - 1) == chainArg && isT(arg5(ncalls - 1), *object.PanArr) && fresh(arg5(ncalls - 1)) && res == result(ncalls - 1)
+//@   ensures  chainArg == object.BuiltInNil && !isErrT(res) ==> isT(res, *object.PanArr) && fresh(res)
 //@   assigns  EC
 //@   loop 1 invariant fresh(elems) && iter != nil
 //@   loop 1 step ncalls == prev(ncalls) + 2 && called(prev(ncalls), "evaluator.(*iterHandler).Next") && arg1(prev(ncalls)) == iter
@@ -640,6 +648,10 @@ package evaluator
 //@   assigns  EC
 //@ func evaluator.squashNilLiteralCallListChainMiddleware$1(env, recv, chainArg, args, kwargs) res
 //@   requires isVal(recv) && isVal(chainArg) && next != nil && env != nil && kwargs != nil
+// a list-chain argument digests the collected results: `digest` of the argument is looked up and called with
+// (digest, argument, the new array of results); without an argument the new array itself is the result
+//@   ensures  chainArg != object.BuiltInNil && !isErrT(res) ==> ncalls >= 2 && called(ncalls - 2, evaluator.evalProp) && arg1(ncalls - 2) == chainArg && called(ncalls - 1, evaluator.evalFuncCall) && arg1(ncalls - 1) == env && arg2(ncalls - 1) == kwargs && nvarargs(ncalls - 1) == 3 && arg3(ncalls - 1) == result(ncalls - 2) && arg4(ncalls - 1) == chainArg && isT(arg5(ncalls - 1), *object.PanArr) && fresh(arg5(ncalls - 1)) && res == result(ncalls - 1)
+//@   ensures  chainArg == object.BuiltInNil && !isErrT(res) ==> isT(res, *object.PanArr) && fresh(res)
 //@   assigns  EC
 //@   loop 1 invariant fresh(elems) && iter != nil
 //@   loop 1 step ncalls == prev(ncalls) + 2 && called(prev(ncalls), "evaluator.(*iterHandler).Next") && arg1(prev(ncalls)) == iter
@@ -650,6 +662,10 @@ package evaluator
 //@   loop 1 step forall j int :: {elems[j]} 0 <= j && j < prev(len(elems)) ==> elems[j] == prev(elems[j])
 //@ func evaluator.keepNilLiteralCallListChainMiddleware$1(env, recv, chainArg, args, kwargs) res
 //@   requires isVal(recv) && isVal(chainArg) && next != nil && env != nil && kwargs != nil
+// a list-chain argument digests the collected results: `digest` of the argument is looked up and called with
+// (digest, argument, the new array of results); without an argument the new array itself is the result
+//@   ensures  chainArg != object.BuiltInNil && !isErrT(res) ==> ncalls >= 2 && called(ncalls - 2, evaluator.evalProp) && arg1(ncalls - 2) == chainArg && called(ncalls - 1, evaluator.evalFuncCall) && arg1(ncalls - 1) == env && arg2(ncalls - 1) == kwargs && nvarargs(ncalls - 1) == 3 && arg3(ncalls - 1) == result(ncalls - 2) && arg4(ncalls - 1) == chainArg && isT(arg5(ncalls - 1), *object.PanArr) && fresh(arg5(ncalls - 1)) && res == result(ncalls - 1)
+//@   ensures  chainArg == object.BuiltInNil && !isErrT(res) ==> isT(res, *object.PanArr) && fresh(res)
 //@   assigns  EC
 //@   loop 1 invariant fresh(elems) && iter != nil
 //@   loop 1 step ncalls == prev(ncalls) + 2 && called(prev(ncalls), "evaluator.(*iterHandler).Next") && arg1(prev(ncalls)) == iter
